@@ -12,6 +12,9 @@ type memoryManagementUnit struct {
 	ctx *risc.Context
 	l1i *comp.LRUCache
 	l1d *comp.LRUCache
+	// queuedStores counts, per line, the stores sent to the write unit and not
+	// yet written to memory
+	queuedStores map[int32]int
 }
 
 func newMemoryManagementUnit(ctx *risc.Context) *memoryManagementUnit {
@@ -19,7 +22,33 @@ func newMemoryManagementUnit(ctx *risc.Context) *memoryManagementUnit {
 		ctx: ctx,
 		l1i: comp.NewLRUCache(l1ICacheLineSize, l1ICacheSize),
 		l1d: comp.NewLRUCache(l1DCacheLineSize, liDCacheSize),
+
+		queuedStores: make(map[int32]int),
 	}
+}
+
+func storeLine(execution risc.Execution) int32 {
+	for addr := range execution.MemoryChanges {
+		return addr - addr%l1DCacheLineSize
+	}
+	return 0
+}
+
+func (u *memoryManagementUnit) storeQueued(execution risc.Execution) {
+	u.queuedStores[storeLine(execution)]++
+}
+
+func (u *memoryManagementUnit) storeWritten(execution risc.Execution) {
+	line := storeLine(execution)
+	if u.queuedStores[line] > 0 {
+		u.queuedStores[line]--
+	}
+}
+
+// isStoreQueued returns true if a store to the line of the addresses still
+// waits for the write unit: memory doesn't hold its bytes yet.
+func (u *memoryManagementUnit) isStoreQueued(addrs []int32) bool {
+	return u.queuedStores[addrs[0]-addrs[0]%l1DCacheLineSize] > 0
 }
 
 func (u *memoryManagementUnit) getFromL1I(addrs []int32) ([]int8, bool) {
